@@ -41,6 +41,20 @@ CHECKS = {
         note="Inputs are <= ~1 KiB. The execution clause of the property (only texts without error diagnostics run) is checked through the CLI in C14.",
         design="DESIGN.md §4 C07, appendix D",
     ),
+    "C09": dict(
+        engine="static",
+        technique="runtime monitoring of the checker's verdicts: single-rule violation injection over an exhaustively enumerated rule x nesting-context matrix plus random hosts, with the expected category taken from the documented rule",
+        text="Held on the complete matrix (89 snippets x 16 nesting contexts, regenerated on every run) and on N random hosts: every snippet that breaks exactly one documented static rule in its context is rejected with an error diagnostic of that rule's category, every snippet that is valid in its context (controls, comot inside a loop of the same function body, return inside a function) and every generated valid host is accepted. Together with C01/C04/C05 (a rejected valid generated program is a violation there) this covers both directions of the 'if and only if'.",
+        note="Type rules are asserted on literals and literal-declared variables only. The expected verdict per cell comes from the documented rules, written down in harness/src/engines/staticck.rs.",
+        design="DESIGN.md §4 C09, appendix B",
+    ),
+    "C10": dict(
+        engine="layout",
+        technique="runtime monitoring: metamorphic comparison of a program with its own token-preserving re-layouts (token identity checked with the crate's lexer as a precondition)",
+        text="Held on N generated programs x 9 variants: single line, one token per line (LF, CRLF, CR), tabs, no blank where none is needed, comments after random tokens with each line ending, random white-space/comment mixtures including split multi-word keywords, and redundant parentheses: acceptance, printed values and ending equal those of the conventional layout. One program in ten is statically invalid and must be rejected alike.",
+        note="Oracle is the program itself. A re-layout that does not lex to the identical token sequence is discarded and counted, never reported.",
+        design="DESIGN.md §4 C10",
+    ),
     "C04": dict(
         engine="sem",
         technique="runtime monitoring: generated scope-heavy programs with site-unique values against a reference interpreter with real lexical closures",
